@@ -2635,12 +2635,14 @@ class RedunBackendDb(RedunBackend):
         """
         assert self.session
 
-        # Gather all valid handles of the same name and their children ids
+        # Gather all handles of the same name and their children ids
         # in order or perform the recursive search more efficiently in python.
+        # Invalid handles are included: a state that was re-derived below an invalid one
+        # (or below `handle` itself while it was invalid) is still a descendant.
         handles_same_name = (
             self.session.query(Handle.hash, HandleEdge.child_id)
             .join(HandleEdge, HandleEdge.parent_id == Handle.hash)
-            .filter(Handle.fullname == handle.__handle__.fullname, Handle.is_valid.is_(True))
+            .filter(Handle.fullname == handle.__handle__.fullname)
             .all()
         )
 
